@@ -27,11 +27,14 @@ BUILT = {
              "to float inf/NaN) as invariants, and every case is replayed in the real interpreter. Trace validation "
              "then covers all four levels: exact arithmetic and conversions on random operands, float(x) must be the "
              "correctly rounded double (a BigNum relation, incl. overflow/subnormal/tie cases), float+-*float must be "
-             "the correctly rounded exact result, mixed-level operations must be bit-identical to the float operation "
+             "the correctly rounded exact result, float / % %% // float (finite operands, exponents at most 160 apart, "
+             "plus pairs built for exact quotients, negative remainders, neighbours of multiples, subnormal divisors) "
+             "must satisfy NumTower!FDivFamilyOk (/ correctly rounded, % exact, %% and // as rem_euclid / div_euclid "
+             "compose them; // and %% by a float zero raise), mixed-level operations must be bit-identical to the float operation "
              "on the converted operands, vector operations must equal the element-wise scalar operations with "
              "broadcasting and reject different lengths.",
-        note="IEEE rounding inside float % // %% and transcendental functions is not re-implemented: those are judged "
-             "by the mixed-level law only. Complex arithmetic: level only. Trusted: TLC, lib/BigNum, f64::to_bits, "
+        note="Transcendental functions and float ^ are not re-implemented; float / % %% // with exponents more than "
+             "160 apart or non-finite operands are judged by the mixed-level law only. Complex arithmetic: level only. Trusted: TLC, lib/BigNum, f64::to_bits, "
              "num-bigint rendering, harness projection.",
         technique="TLA+ spec (NumTower) + TLC bounded model checking with case replay + TLC trace validation"),
     "C08": dict(
@@ -142,7 +145,8 @@ BUILT = {
              "with a fresh scope per call, per loop iteration and clause, per while iteration, per catch clause; := and "
              "= rules; break/continue/return/throw as control results that loops, calls and try absorb or decrement; "
              "yield, yield k: v, into with catamorphisms; short circuits; defaults and splats; switch with arm scopes and "
-             "literal / literally / tuple patterns; eval in the scope of the call). TLC explores every history of 3 "
+             "literal / literally / tuple patterns; catch clauses with patterns, a handler whose pattern does not match "
+             "passing the original value on; eval in the scope of the call). TLC explores every history of 3 "
              "statements (thorough: also 4 over seeded sub-vocabularies) over a 50-statement vocabulary and "
              "every transition is replayed in the real interpreter (value, printed output, outcome class, all tracked "
              "globals). Trace validation: seeded random programs (nested multi-clause loops, guards, mid-loop "
@@ -257,14 +261,18 @@ BUILT = {
              "every global function of the interpreter's own vars() table (minus an exclusion list that is also in the "
              "specification) to every tuple of 0..2 (thorough 0..3) arguments from a 32-value boundary pool, prefix and "
              "infix, each as the mini-session sentinel; call; the same call under try/catch; 1 + 1; sentinel re-read, "
-             "forces lazy results, and treats 85 fault-injected statement templates the same way. Trace_Outcome accepts "
+             "forces lazy results, and treats 89 fault-injected statement templates the same way (incl. a same-named "
+             "struct with fewer fields reached through the outer struct's accessor); finite streams with more elements "
+             "than a machine word counts (permutations of 21, subsequences of 64, [1,2,3] ^^ 100) are handed to len "
+             "and to the callees that need not consume their argument. Trace_Outcome accepts "
              "a recorded mini-session only if some statement of the automaton explains it and its final check rejects a "
              "sweep that skipped a global function, an arity or an argument-kind signature. Exploration bound to a "
              "protocol specification: exhaustive over builtin x pool, not over all values.",
         note="Excluded (Outcome!Excluded): files, process, network, clock, sleep, randomness; infinite streams only for "
              "NonConsuming callees; stack exhaustion by unbounded recursion not covered. Hangs are confirmed alone with a "
              "3 s limit; a 3 GB address-space limit per interpreter turns runaway allocation into an abort. Known "
-             "finding: eleven repetition/shift/power/window builtins exhaust resources for counts >= 2^63.",
+             "findings: eleven repetition/shift/power/window builtins exhaust resources for counts >= 2^63; the closed-form "
+             "length of permutations / subsequences / cartesian powers overflows a machine word (panic).",
         technique="TLA+ protocol automaton (Outcome) + TLC model checking with session replay + exhaustive builtin x "
                   "boundary-argument sweep and fault-injected statements validated by TLC trace validation"),
     "C15": dict(
@@ -293,7 +301,9 @@ BUILT = {
              "integers in small and big representation, comparing the implementation's actual text or bytes with the "
              "specification's, not only the round trip. A seeded driver covers integers of any size and sign in both "
              "representations in every base, signed decimal/fraction strings, random byte and Unicode strings and nested "
-             "JSON-shaped values. Gzip is an opaque inverse-pair law over logged pairs.",
+             "JSON-shaped values. Gzip is an opaque inverse-pair law over logged pairs; bulk payloads of 5 kB to 200 kB "
+             "(pseudo-random and repetitive, built inside the interpreter) are judged by the inverse-pair law of hex, "
+             "base64 and gzip on [equal to the payload, length].",
         note="Float text is never compared: JSON and repr floats are re-parsed exactly and must round to the original "
              "double. Left open: the empty int_radix string, _ separators, sign-then-point decimals, exponents beyond "
              "+-9999, non-canonical base64, number() on non-integer text.",
